@@ -226,7 +226,9 @@ def run(tier, seed):
         if "rt" in d and "strict" in d and d["rt"][1]["outcome"].get("phase") != "build" and d["rt"][0]["scn"].get("transport") != "local":
             cs, cr = det.canon_of(d["rt"][1]["item"])
             sr = d["strict"][1]
-            items.append({"canon": cs, "canon_r": sr["outcome"]["r"] if sr["outcome"]["r"] != "ok" else cr, "compare": True, "ev": sr["item"]["ev"]})
+            reports = sum(1 for e in d["rt"][1]["item"]["ev"] if e["k"] == "LOG" and e.get("cat") == "too_slow")
+            items.append({"canon": cs, "canon_r": sr["outcome"]["r"] if sr["outcome"]["r"] != "ok" else cr, "compare": True, "ev": sr["item"]["ev"],
+                          "strictcmp": {"reports": reports}})
             owners.append(d["strict"])
     viols, dstates, dtrans = det.judge_det(items) if items else ([], 0, 0)
     for (c, r), vs in zip(owners, viols):
